@@ -270,7 +270,7 @@ def evaluate_expression(expr, options=None, locals_=None, builtins=True):
         try:
             if bin_op == '+':
                 # number + number
-                if isinstance(left_value, (int, float)) and isinstance(right_value, (int, float)):
+                if _is_number(left_value) and _is_number(right_value):
                     return left_value + right_value
 
                 # string + string
@@ -284,16 +284,16 @@ def evaluate_expression(expr, options=None, locals_=None, builtins=True):
                     return value_string(left_value) + right_value
 
                 # datetime + number
-                elif isinstance(left_value, datetime.date) and isinstance(right_value, (int, float)):
+                elif isinstance(left_value, datetime.date) and _is_number(right_value):
                     left_dt = value_normalize_datetime(left_value)
                     return left_dt + datetime.timedelta(milliseconds=right_value)
-                elif isinstance(left_value, (int, float)) and isinstance(right_value, datetime.date):
+                elif _is_number(left_value) and isinstance(right_value, datetime.date):
                     right_dt = value_normalize_datetime(right_value)
                     return right_dt + datetime.timedelta(milliseconds=left_value)
 
             elif bin_op == '-':
                 # number - number
-                if isinstance(left_value, (int, float)) and isinstance(right_value, (int, float)):
+                if _is_number(left_value) and _is_number(right_value):
                     return left_value - right_value
 
                 # datetime - datetime
@@ -304,12 +304,12 @@ def evaluate_expression(expr, options=None, locals_=None, builtins=True):
 
             elif bin_op == '*':
                 # number * number
-                if isinstance(left_value, (int, float)) and isinstance(right_value, (int, float)):
+                if _is_number(left_value) and _is_number(right_value):
                     return left_value * right_value
 
             elif bin_op == '/':
                 # number / number
-                if isinstance(left_value, (int, float)) and isinstance(right_value, (int, float)):
+                if _is_number(left_value) and _is_number(right_value):
                     return left_value / right_value
 
             elif bin_op == '==':
@@ -332,12 +332,12 @@ def evaluate_expression(expr, options=None, locals_=None, builtins=True):
 
             elif bin_op == '%':
                 # number % number
-                if isinstance(left_value, (int, float)) and isinstance(right_value, (int, float)):
+                if _is_number(left_value) and _is_number(right_value):
                     return left_value % right_value
 
             else: # bin_op == '**'
                 # number ** number
-                if isinstance(left_value, (int, float)) and isinstance(right_value, (int, float)):
+                if _is_number(left_value) and _is_number(right_value):
                     result = left_value ** right_value
                     return result if not isinstance(result, complex) else None
 
@@ -354,7 +354,7 @@ def evaluate_expression(expr, options=None, locals_=None, builtins=True):
         value = evaluate_expression(expr['unary']['expr'], options, locals_, builtins)
         if unary_op == '!':
             return not value_boolean(value)
-        elif unary_op == '-' and isinstance(value, (int, float)):
+        elif unary_op == '-' and _is_number(value):
             return -value
 
         # Invalid operation value
@@ -363,6 +363,11 @@ def evaluate_expression(expr, options=None, locals_=None, builtins=True):
     # Expression group
     # expr_key == 'group'
     return evaluate_expression(expr['group'], options, locals_, builtins)
+
+
+# Helper to test for a number value - booleans are not numbers
+def _is_number(value):
+    return isinstance(value, (int, float)) and not isinstance(value, bool)
 
 
 class BareScriptRuntimeError(Exception):
